@@ -116,6 +116,15 @@ def time_limit(seconds):
         signal.signal(signal.SIGALRM, old)
 
 
+def _raised_in_library(tb):
+    try:
+        from . import impl
+        root = os.path.realpath(impl.REPO) + os.sep
+    except Exception:
+        return False
+    return bool(tb) and os.path.realpath(tb[-1].filename).startswith(root)
+
+
 def get_check(check_id):
     return importlib.import_module('vf.checks.%s' % check_id.lower())
 
@@ -127,10 +136,19 @@ def _worker(args):
     t_start = time.time()
     try:
         check.run_shard(shard, tier, res)
-    except Exception as e:  # harness error: report as broken, never as violation
+    except Exception as e:
         import traceback
-        res.flags['harness_error'] += 1
-        res.caps.append('harness error in shard %d: %s' % (idx, traceback.format_exc()[-1500:]))
+        tb = traceback.extract_tb(sys.exc_info()[2])
+        if _raised_in_library(tb):
+            # an exception that escapes from rtamt's own code through a call the check makes on every explored input without guarding it
+            # (constructing, parsing, pastifying a well-formed specification): on the unchanged tree this never happens, so it is the
+            # library that broke, not the harness
+            res.violation(check, {'crashed_shard': shard, 'tier': tier},
+                          'rtamt raised %s: %s in %s line %d during a call that the check performs on every explored input'
+                          % (type(e).__name__, str(e)[:120], tb[-1].filename, tb[-1].lineno))
+        else:   # harness error: report as broken, never as violation
+            res.flags['harness_error'] += 1
+            res.caps.append('harness error in shard %d: %s' % (idx, traceback.format_exc()[-1500:]))
     d = res.pack()
     d['idx'] = idx
     d['wall'] = round(time.time() - t_start, 2)
@@ -308,7 +326,15 @@ def run(check_id, tier, seed):
 def replay(path):
     d = json.load(open(path))
     check = get_check(d['property'])
-    msgs = check.replay(d['case'])
+    if 'crashed_shard' in d['case']:
+        res = Res(d['property'])
+        try:
+            check.run_shard(d['case']['crashed_shard'], d['case'].get('tier', 'quick'), res)
+            msgs = []
+        except Exception as e:
+            msgs = ['rtamt raised %s: %s' % (type(e).__name__, str(e)[:200])]
+    else:
+        msgs = check.replay(d['case'])
     if msgs:
         for m in msgs:
             print('VIOLATION property=%s replay=%s' % (d['property'], path))
